@@ -165,6 +165,20 @@ def skipCmd (st : SkipState) (c : Cmd) : Res :=
   | .correction => correctionSkip st c.on
   | .stateModel => stateModelSkip st c.name c.on
 
+/-- **Hand-over**: the prediction and correction objects are move-constructed into new objects
+    held by a new filter.  Every move constructor in the hierarchy moves its base first
+    (`GaussianPrediction(std::move(p))`, `PFPrediction(std::move(p))`, `PFCorrection(std::move(c))`
+    and — since fix 88cf1f5 — `GaussianCorrection(std::move(c))` in `KFCorrection`,
+    `UKFCorrection`, `SUKFCorrection`), which copies `skip_`; the state model travels inside its
+    `unique_ptr`, so it and its exogenous model are the very same objects.  Field by field: -/
+def handOver (st : SkipState) : SkipState :=
+  { pred := st.pred, state := st.state, exo := st.exo, corr := st.corr }
+
+/-- What the hand-over did to a *Gaussian* correction before 88cf1f5: the base class was
+    default-constructed, so the correction's skip flag was lost. -/
+def handOverBefore88cf1f5 (st : SkipState) : SkipState :=
+  { pred := st.pred, state := st.state, exo := st.exo, corr := false }
+
 /-- State after a command list (a thrown command keeps whatever it had written). -/
 def run (st : SkipState) : List Cmd → SkipState
   | [] => st
